@@ -45,6 +45,9 @@ type cliReq struct {
 	sent   int // body octets seen on the wire so far
 	bodyOK bool
 	bs     *cli_scriptReader
+	said   string // what a GOAWAY-class result said when it was handed out
+	nres   int    // results taken out of Err so far
+	err    error  // the result, kept so that what it says can be looked at again later (`errs`)
 }
 
 // cliNet is the client's end of the connection; it notes the writes the transport refused
@@ -77,6 +80,9 @@ type cliConn struct {
 	bySid    map[uint32]*cliReq
 	poolSeen int
 	hdecMax  uint32
+	lastSaid string // what LastErr said when the connection ended (GOAWAY-class errors)
+	stalled  bool   // the peer has stopped reading (cli_stall.go): nothing is compared with the model any more
+	st       *cliStall
 }
 
 // cli_scriptReader is a request body stream whose Read results are scripted.
@@ -456,9 +462,23 @@ func (cc *cliConn) finishStep(prefix string) string {
 		cc.state = "dead"
 		le := "nil"
 		if e := cc.c.LastErr(); e != nil {
-			le = strings.ReplaceAll(e.Error(), " ", "_")
+			le = strings.Map(func(r rune) rune {
+				if r == ' ' {
+					return '_'
+				}
+				if r < 0x21 || r > 0x7e {
+					return '.'
+				}
+				return r
+			}, e.Error())
 			if len(le) > 60 {
 				le = le[:60]
+			}
+			if d := cliGoAwayDetail(e); d != "" {
+				le += " last" + d
+				if cc.lastSaid == "" {
+					cc.lastSaid = d
+				}
 			}
 		}
 		return strings.TrimSpace(prefix+" dead ready="+cc.ready()) + " ## " + all + " lasterr=" + le
@@ -538,6 +558,12 @@ func (r *runner) runCli(f []string) string {
 	if cc.state == "hs-err" || (cc.state == "stuck" && op != "read") {
 		return cc.state + " ## -"
 	}
+	if cc.stalled || op == "stall" {
+		if op != "stall" && cc.st == nil {
+			return "bad-op"
+		}
+		return cc.runStalled(op, f)
+	}
 	switch op {
 	case "req":
 		return cc.doReq(f[3:])
@@ -615,6 +641,8 @@ func (r *runner) runCli(f []string) string {
 			cc.state = "dead"
 		}
 		return "race ## " + q + " " + cc.raceDiag()
+	case "errs":
+		return "errs ## " + cc.errsDiag()
 	case "failwrite":
 		n, _ := strconv.Atoi(f[3])
 		cc.mc.out.setFailAfter(cc.mc.out.total + int64(n))
@@ -651,7 +679,10 @@ func (cc *cliConn) noteServerSettings(b []byte) {
 func (r *runner) cliNew(id string, a []string) string {
 	// one connection at a time: the progress counters are global
 	for k, old := range r.cli {
-		if old.state == "" && old.c != nil {
+		cliKeep(old)
+		if old.stalled && old.c != nil {
+			old.stallCleanup()
+		} else if old.state == "" && old.c != nil {
 			_ = old.c.Close()
 			old.quiesce()
 		}
@@ -787,9 +818,14 @@ func (cc *cliConn) doRead(q *cliReq) string {
 		// RoundTrip takes the request back before it returns; it waits for whoever holds the lock
 		if !cc.guarded(func() { http2.VerifCtxTakeBack(q.ctx) }) {
 			q.read = true
+			q.nres++
+			q.err = err
 			return "read hung " + cliErrName(err) + " ## takeBack blocked: the connection still holds the request"
 		}
 		q.read = true
+		q.nres++
+		q.err = err
+		q.said = cliGoAwayDetail(err)
 		s := fmt.Sprintf("read %s retry=%d sid=%d", cliErrName(err), map[bool]int{false: 0, true: 1}[http2.VerifRetryable(err)],
 			http2.VerifCtxStreamID(q.ctx))
 		if err == nil {
@@ -799,10 +835,81 @@ func (cc *cliConn) doRead(q *cliReq) string {
 		if q.bs != nil {
 			bsc = fmt.Sprintf(" bsclosed=%d", q.bs.closed)
 		}
-		return s + " ##" + fmt.Sprintf(" cl=%d", q.res.Header.ContentLength()) + bsc + " sent=" + strconv.Itoa(q.sent) + " bodyok=" + strconv.FormatBool(q.bodyOK)
+		return s + " ##" + fmt.Sprintf(" cl=%d", q.res.Header.ContentLength()) + bsc + " sent=" + strconv.Itoa(q.sent) + " bodyok=" + strconv.FormatBool(q.bodyOK) + cliErrDetail(err)
 	default:
 		return "read none ## -"
 	}
+}
+
+// cliGoAwayDetail: an error that is, or wraps, a GOAWAY frame says what that frame said: last-stream-id, code, length
+// and digest of the debug data. The monitors compare it with the GOAWAY the scripted server sent, at every time the
+// error is looked at: the value belongs to the caller for as long as the caller keeps it.
+func cliGoAwayDetail(err error) string {
+	var ga *http2.GoAway
+	if err != nil && errors.As(err, &ga) && ga != nil {
+		return fmt.Sprintf("ga=%d:%d:%d:%d", ga.Stream(), uint32(ga.Code()), len(ga.Data()), sum32(ga.Data()))
+	}
+	return ""
+}
+
+// cliKept: GOAWAY-class errors of connections that are over, with what they said when they were handed out. A caller may
+// keep an error for as long as it likes: what it says must not change when later connections recycle frames.
+type cliKeptErr struct {
+	from string
+	err  error
+	said string
+}
+
+var cliKept []cliKeptErr
+
+func cliKeep(cc *cliConn) {
+	if cc.c == nil {
+		return
+	}
+	add := func(from string, e error, said string) {
+		if said != "" {
+			cliKept = append(cliKept, cliKeptErr{from, e, said})
+		}
+	}
+	if e := cc.c.LastErr(); e != nil {
+		add("last", e, cc.lastSaid)
+	}
+	for _, t := range cc.order {
+		if q := cc.reqs[t]; q.err != nil {
+			add(t, q.err, q.said)
+		}
+	}
+	if len(cliKept) > 64 {
+		cliKept = cliKept[len(cliKept)-64:]
+	}
+}
+
+// errsDiag looks again at every error handed out so far and at the connection's LastErr.
+func (cc *cliConn) errsDiag() string {
+	var d []string
+	changed := 0
+	for _, k := range cliKept {
+		if cliGoAwayDetail(k.err) != k.said {
+			changed++
+		}
+	}
+	d = append(d, fmt.Sprintf("kept=%d keptchanged=%d", len(cliKept), changed))
+	if e := cc.c.LastErr(); e != nil {
+		if x := cliGoAwayDetail(e); x != "" {
+			d = append(d, "last"+x)
+		}
+	}
+	for _, t := range cc.order {
+		if q := cc.reqs[t]; q.err != nil {
+			if x := cliGoAwayDetail(q.err); x != "" {
+				d = append(d, t+":"+x)
+			}
+		}
+	}
+	if len(d) == 0 {
+		return "-"
+	}
+	return strings.Join(d, " ")
 }
 
 func sum32(b []byte) uint32 {
